@@ -56,9 +56,9 @@ def refs_spec(cls, site, up):
     return [f"procedure({r}), pointer :: pp_{s}"]
 
 
-def render(cls, decl, use_at, up, via3=False):
+def render(cls, decl, use_at, up, via3=False, renaway=False):
     n = NAME[cls]
-    use = lambda site: ["use m2"] if use_at == site else []
+    use = lambda site: ([f"use m2, zz_alias => {n}"] if renaway else ["use m2"]) if use_at == site else []
     procdecl = lambda site: ([f"subroutine {n}()", f"  integer :: in_{site.lower()}", f"end subroutine {n}"]
                              if cls == "proc" and site in decl else [])
     call = [f"call {_ref(cls, up)}()"] if cls == "proc" else []
@@ -68,11 +68,14 @@ def render(cls, decl, use_at, up, via3=False):
         return use(site) + ["implicit none"] + (decl_spec(cls, site) if site in decl else []) + refs_spec(cls, site, up)
 
     m1 = ["module m1"] + ind(unit_body("M1"))
-    m1_sees = "M1" in decl or (use_at == "M1" and "M2" in decl)
+    m1_sees = "M1" in decl or (use_at == "M1" and "M2" in decl and not renaway)
     if cls == "proc" and m1_sees:      # module-level slots: binding target, final, generic specific (must exist in valid Fortran)
         r = _ref(cls, up)
         m1 += ind(["type :: holder", "  integer :: h", "contains", f"  procedure, nopass :: bnd => {r}", f"  final :: {r}", "end type holder",
-                   "interface gen", f"  module procedure {r}", "end interface gen"])
+                   "interface gen", f"  module procedure {r}", "end interface gen",
+                   # a deferred binding has no target: its name denotes nothing, whatever procedure of that name is visible
+                   "abstract interface", "  subroutine dfi(self)", "    import :: dholder", "    class(dholder) :: self", "  end subroutine dfi", "end interface",
+                   "type, abstract :: dholder", "  integer :: dh", "contains", f"  procedure(dfi), deferred :: {r}", "end type dholder"])
     m1 += ["contains"]
     blk = ind(["blk: block"] + ind(decl_spec(cls, "B1")) + ["end block blk"]) if "B1" in decl else []
     p1 = ["subroutine p1()"] + ind(unit_body("P1")) + ind(call) + blk + ["contains"]
@@ -146,6 +149,10 @@ def observe(cls, files, order):
         else:
             mp = gen.modprocs[0].procedure if gen.modprocs else "missing"
             obs["M1:generic"] = ident(mp) if mp != "missing" else "missing"
+        dh = next((t for t in m1.types if t.name.lower() == "dholder"), None)
+        if dh is not None and dh.boundprocs:
+            tg = dh.boundprocs[0].bindings[0] if dh.boundprocs[0].bindings else "none"
+            obs["M1:deferred"] = ident(tg) if not isinstance(tg, str) else "unresolved"
     return obs
 
 
@@ -162,6 +169,7 @@ def expected(cls, ref):
     if cls == "proc" and ref["M1"] != "unresolved":
         for slot in ("binding", "final", "generic"):
             exp[f"M1:{slot}"] = ref["M1"]
+        exp["M1:deferred"] = "unresolved"
     return exp
 
 
@@ -184,8 +192,10 @@ def evaluate(case):
     if "M2" in case["decl"] and case["useAt"] != "none":
         variants.append((False, True))
         variants.append((False, "stub"))        # m2 is called like a module FORD also knows as external (mpi_f08)
+        if case.get("ref_nouse"):
+            variants.append((False, "renaway"))   # `use m2, zz_alias => name`: the name itself is not made accessible by this USE
     for up, via3 in variants:
-        files = render(cls, set(case["decl"]), case["useAt"], up, via3 is True)
+        files = render(cls, set(case["decl"]), case["useAt"], up, via3 is True, renaway=(via3 == "renaway"))
         if via3 == "stub":
             files = {k: re.sub(r"\bm2\b", STUB, v) for k, v in files.items()}
         names = sorted(files)
@@ -195,7 +205,7 @@ def evaluate(case):
                 obs = observe(cls, files, order)
             except Exception as ex:
                 obs = {"_error": f"{type(ex).__name__}: {ex}"}
-            exp = expected(cls, case["ref"])
+            exp = expected(cls, case["ref_nouse"] if via3 == "renaway" else case["ref"])
             bad = [(k, v, obs.get(k)) for k, v in exp.items() if obs.get(k) != v] if "_error" not in obs else [("_error", "", obs["_error"])]
             explained = False
             if bad and "_error" not in obs:
@@ -244,8 +254,10 @@ def run(tier, seed, ck: Check):
         cases = []
         for cls in ("type", "absint", "proc"):
             cases += generate(scratch, cls, dev, ck)
+        nouse = {(c["cls"], tuple(sorted(c["decl"]))): c["ref"] for c in cases if c["useAt"] == "none"}
         for c in cases:
             c["tier"] = tier
+            c["ref_nouse"] = nouse.get((c["cls"], tuple(sorted(c["decl"]))))     # Ref of the same declarations without the USE
         results = pool.pmap(evaluate, cases, chunksize=8)
         for c, rs in zip(cases, results):
             if len(c["decl"]) >= 2 or (c["decl"] and c["useAt"] != "none") or not c["decl"]:
@@ -278,7 +290,7 @@ def run(tier, seed, ck: Check):
 def replay_file(path, ck):
     rec = json.load(open(path))
     c = rec["case"]
-    files = rec.get("files") or render(c["cls"], set(c["decl"]), c["useAt"], c["up"], c.get("via3", False) is True)
+    files = rec.get("files") or render(c["cls"], set(c["decl"]), c["useAt"], c["up"], c.get("via3", False) is True, renaway=(c.get("via3") == "renaway"))
     obs = observe(c["cls"], files, c["order"])
     exp = rec["expected"]
     bad = [(k, v, obs.get(k)) for k, v in exp.items() if obs.get(k) != v]
